@@ -1,10 +1,14 @@
 package ssaexec
 
 import (
+	"fmt"
 	"go/token"
 	"go/types"
+	"regexp"
 
 	"golang.org/x/tools/go/ssa"
+
+	"gosym/smt"
 )
 
 const pollTries = 3
@@ -36,6 +40,41 @@ func registerK8sModels(e *Engine) {
 		call(fr.p, fr, token.NoPos, args[0], nil)
 		return nil
 	}
+
+	// k8s.io/apimachinery/pkg/util/validation: the name validators read package-level regexps (initialisers are not
+	// executed), so they are modelled. Concrete names: the exact DNS-1123 rules. Symbolic names: membership in the
+	// same character-set classes nondetString draws names from plus the length limit, i.e. every name of the class
+	// that is short enough is accepted (the classes are supersets of the exact grammar, so code that validates a
+	// name correctly never rejects a class member; a counterexample only counts once it reproduces natively).
+	valPkg := "k8s.io/apimachinery/pkg/util/validation"
+	dnsLabel := regexp.MustCompile(`^[a-z0-9]([-a-z0-9]*[a-z0-9])?$`)
+	dnsSub := regexp.MustCompile(`^[a-z0-9]([-a-z0-9]*[a-z0-9])?(\.[a-z0-9]([-a-z0-9]*[a-z0-9])?)*$`)
+	validator := func(name string, re *regexp.Regexp, class string, maxLen int) {
+		e.native(valPkg+"."+name, func(s string) []string {
+			var errs []string
+			if len(s) > maxLen {
+				errs = append(errs, fmt.Sprintf("must be no more than %d characters", maxLen))
+			}
+			if !re.MatchString(s) {
+				errs = append(errs, "a DNS-1123 name must consist of lower case alphanumeric characters or '-', and must start and end with an alphanumeric character")
+			}
+			return errs
+		})
+		e.symModels[valPkg+"."+name] = func(fr *frame, fn *ssa.Function, args []value) value {
+			st := fr.p.st
+			s := fr.toSym(args[0], types.String).T
+			// two separate decisions: cvc5 1.0 answers unknown on the negated conjunction
+			if !fr.p.branch(fr, nil, st.StrInRe(s, class)) {
+				return []value{"invalid DNS-1123 name"}
+			}
+			if !fr.p.branch(fr, nil, st.IntBin(smt.OIntLe, st.StrOp(smt.OStrLen, smt.Int, s), st.IntC(int64(maxLen)))) {
+				return []value{"name too long"}
+			}
+			return []value(nil)
+		}
+	}
+	validator("IsDNS1123Label", dnsLabel, reLabel, 63)
+	validator("IsDNS1123Subdomain", dnsSub, reSubdomain, 253)
 
 	errPkg := "k8s.io/apimachinery/pkg/api/errors"
 	reasonOf := func(fr *frame, err iface) string {
